@@ -229,6 +229,34 @@ def run(spec, R):
         R.count('foreign_exceptions')
         one(R, kind, wsgi, server, rec, 'foreign:' + ek, ('Server', 'Internal Error', None), 500, {'seed': spec['seed'], 'i': i, 'exc': ek}, rng,
             tokens=tok.all())
+    # ---- the method returns what produces the answer - a generator, or an iterator object of its own - and that fails while the answer is
+    #      written: a Fault is the user's Fault, anything else is the generic one
+    if not kind.startswith('httprpc'):
+        for meth in ('stream', 'lazy'):
+            for fail_after in (0, 1, 2):
+                for how, expect in (('fault', ('Client.MidStream', 'failed after %d chunks' % fail_after)), ('exc', ('Server', 'Internal Error'))):
+                    req = M.encode_request(kind, meth, [('n', 4), ('fail_after', fail_after), ('how', how)])
+                    env, inp = drive.make_environ(req['method'], req['path'], req['qs'], req['body'], req['content_type'])
+                    rec.reset()
+                    w = drive.call_wsgi(WsgiApplication(app, chunked=False), env, inp)
+                    R.evaluations += 1
+                    case = {'seed': spec['seed'], 'kind': kind, 'what': 'midstream', 'method': meth, 'fail_after': fail_after, 'how': how}
+                    if w.exc is not None:
+                        R.violation('exception escaped the WSGI callable: %r' % w.exc, case, mech='escape:%s:%s' % (type(w.exc).__name__, drive.innermost_spyne_frame(w.exc)))
+                        continue
+                    f = decode_fault_any(kind, w.body)
+                    R.count('midstream_faults')
+                    if f is None:
+                        R.violation('answer of a call whose result failed while it was written is not a fault document: %r' % w.body[:200], case, mech='midstream:not_a_fault_document:%s' % kind)
+                        continue
+                    if b'secret-midstream' in w.body:
+                        R.violation('the text of a non-Fault exception raised while the answer was written appears in the response', case, mech='leak:message')
+                    if (f[0], f[1]) != expect:
+                        R.violation('%s raised by the %s while the answer was written arrived as %r' % ('Fault %r' % (expect,) if how == 'fault' else 'a RuntimeError', 
+                                    'generator' if meth == 'stream' else 'iterator object', (f[0], f[1])), case,
+                                    mech='midstream:%s:%s_arrives_as_%s' % ('generator' if meth == 'stream' else 'iterator_object', how, (f[0] or '').split('.')[0]))
+                    else:
+                        R.nontrivial(kind, 'midstream', meth, fail_after, how)
     # ---- the method picks the protocol of its own answer, then fails: code, message and status are those of the protocol that writes the answer
     for fmt in ('json', 'xml', 'yaml', 'soap11'):
         for how, ecode, dedicated in (('fault', 'Client.Negotiated', None), ('server_fault', 'Server.Negotiated', None), ('notfound', 'Client.ResourceNotFound', 404)):
